@@ -15,11 +15,14 @@ Ext(x) == Sh("ext", "", <<x>>)
 
 Items == {Prim("string"), Prim("integer"), Prim("double"), Prim("binary"), Ref("obj"), Ref("enum")}
 Keys == {Prim("string"), Prim("integer"), Prim("double"), Prim("boolean"), Prim("uuid"), Ref("enum")}
+(* the remaining key types of the data model: one value kind each *)
+MoreKeys == {Prim("rid"), Prim("bearertoken"), Prim("datetime"), Prim("safelong"), Prim("binary")}
 Base == {Prim(p) : p \in Prims} \cup {Ref("obj"), Ref("enum"), Ref("union")}
         \cup {Opt(x) : x \in Items \cup {Prim("any"), Ref("union"), List(Prim("string")), Prim("safelong"), Prim("uuid")}}
         \cup {List(x) : x \in Items \cup {Opt(Prim("integer")), Prim("any")}}
         \cup {SetOf(x) : x \in {Prim("string"), Prim("integer"), Prim("double"), Ref("enum")}}
         \cup {Map(k, x) : k \in Keys, x \in {Prim("string"), Prim("double"), List(Prim("integer"))}}
+        \cup {Map(k, Prim("integer")) : k \in MoreKeys} \cup {SetOf(k) : k \in MoreKeys \cup {Prim("uuid"), Prim("boolean")}}
 Wrapped == {Prim("string"), Prim("double"), Prim("any"), Prim("binary"), Prim("integer"), Opt(Prim("integer")),
             List(Prim("string")), SetOf(Prim("double")), Map(Prim("string"), Prim("double")), Ref("obj"), Opt(Ref("obj")), Ref("enum")}
 Shapes == Base \cup {Alias(x) : x \in Wrapped} \cup {Alias(Alias(x)) : x \in Wrapped}
